@@ -2,92 +2,149 @@ import Vata.Proofs.Rename
 import Vata.Proofs.TrimModel
 import Vata.Proofs.SimModel
 import Vata.Proofs.IsectModel
+import Vata.Proofs.InclUpTotal
+import Vata.Proofs.PropAux
 /-!
-# C19 – invariance under renaming and the laws of language inclusion (about the models)
+# C19 – Results are invariant under renaming/reordering and obey the language laws
+
+> Renaming the states of the operands by any bijection, adding their rules in a different order, or registering the
+> symbols in a different order never changes an inclusion or emptiness verdict, maps a computed simulation relation to
+> its renamed image, and leaves the number of states produced by reduction and trimming unchanged.  Verdicts on
+> arbitrary automata obey the laws of language inclusion: A ⊆ A, A ⊆ A ∪ B, A ∩ B ⊆ A, inclusion is transitive, and A
+> is equivalent to its reduced, trimmed, re-indexed and dumped-and-reloaded forms; every inclusion algorithm returns the
+> same verdict.
+
+## How the statement is read into the model
 
 Each relation the metamorphic check evaluates on the implementation is a theorem for the exact models: a broken law or
-a twin disagreement observed on the real code is therefore a failing input by itself.
+a twin disagreement observed on the real code is therefore a failing input by itself (no reference verdict is needed,
+which is what makes the check applicable to the large corpus automata).
+
+* **Specification (L0).**  `Incl`, `LangEq`, `LangEmpty` (`Vata/Lang.lean`).  A correct inclusion / emptiness verdict
+  *is* the truth value of `Incl A B` / `LangEmpty A` (C01, C03), so "the verdict does not change" is an equivalence
+  between these propositions for the twin inputs.
+* **Models.**  Renaming the states: `reindex f` with `InjOnStates f A` (a bijection restricted to the states of `A`).
+  Adding the rules in a different order: another rule *list* with the same *set* of rules (and of final states).
+  Registering the symbols in another order changes the internal symbol numbers by an injective map `g`:
+  `translateSymbols g` on the automaton, `Tree.mapSyms g` on trees.  Union: `unionDisjoint` (operands with disjoint
+  states, which is what the check feeds) ; intersection: `isectFull` (same language as the model `isectTD` of
+  `Intersection`, C02); reduction, trimming, re-indexing: the models of C05, C03, C14.
+  The lemmas (`Vata.incl_refl`, …) are in `Vata/Proofs/PropAux.lean`.
 -/
-namespace Vata
+namespace Vata.Props
+open Vata
 
-theorem incl_refl (A : TA) : Incl A A := fun _ h => h
+/-! ### twins -/
 
-theorem incl_trans {A B C : TA} (h₁ : Incl A B) (h₂ : Incl B C) : Incl A C := fun t h => h₂ t (h₁ t h)
+/-- renaming the states of both operands by maps that are injective on their states changes neither the inclusion nor
+the emptiness verdict -/
+theorem C19_state_renaming_invariance (f g : Nat → Nat) (A B : TA) (hf : InjOnStates f A) (hg : InjOnStates g B) :
+    (Incl (reindex f A) (reindex g B) ↔ Incl A B) ∧ (LangEmpty (reindex f A) ↔ LangEmpty A) :=
+  ⟨incl_equivariant f g A B hf hg, empty_equivariant f A hf⟩
 
-theorem langEq_incl {A B : TA} (h : LangEq A B) : Incl A B ∧ Incl B A :=
-  ⟨fun t ha => by rw [← h t]; exact ha, fun t hb => by rw [h t]; exact hb⟩
+example : InjOnStates (· + 10) RenameEx.exA ∧ InjOnStates (fun q => 7 * q + 3) RenameEx.exB :=
+  ⟨by intro q q' _ _ h; simp only at h; omega, by intro q q' _ _ h; simp only at h; omega⟩
 
-/-- renaming both operands by injective maps does not change the inclusion verdict -/
-theorem incl_equivariant (f g : Nat → Nat) (A B : TA) (hf : InjOnStates f A) (hg : InjOnStates g B) :
-    Incl (reindex f A) (reindex g B) ↔ Incl A B := by
-  constructor
-  · intro h t ha
-    have := h t (by rw [reindex_inj_lang f A hf t]; exact ha)
-    rw [reindex_inj_lang g B hg t] at this; exact this
-  · intro h t ha
-    rw [reindex_inj_lang f A hf t] at ha
-    rw [reindex_inj_lang g B hg t]; exact h t ha
+/-- insertion order and repetitions do not matter: automata with the same *sets* of rules and final states have the
+same language, hence the same inclusion and emptiness verdicts -/
+theorem C19_insertion_order_invariance (A A' B B' : TA)
+    (hA : (∀ r, r ∈ A.rules ↔ r ∈ A'.rules) ∧ (∀ q, q ∈ A.final ↔ q ∈ A'.final))
+    (hB : (∀ r, r ∈ B.rules ↔ r ∈ B'.rules) ∧ (∀ q, q ∈ B.final ↔ q ∈ B'.final)) :
+    LangEq A A' ∧ (Incl A B ↔ Incl A' B') ∧ (LangEmpty A ↔ LangEmpty A') := by
+  have ha : LangEq A A' := lang_perm_invariant A A' hA.1 hA.2
+  have hb : LangEq B B' := lang_perm_invariant B B' hB.1 hB.2
+  refine ⟨ha, ⟨fun h t ht => ?_, fun h t ht => ?_⟩, ⟨fun h t => ?_, fun h t => ?_⟩⟩
+  · rw [← hb t]; exact h t (by rw [ha t]; exact ht)
+  · rw [hb t]; exact h t (by rw [← ha t]; exact ht)
+  · rw [← ha t]; exact h t
+  · rw [ha t]; exact h t
 
-/-- … nor the emptiness verdict -/
-theorem empty_equivariant (f : Nat → Nat) (A : TA) (hf : InjOnStates f A) :
-    LangEmpty (reindex f A) ↔ LangEmpty A := by
-  constructor
-  · intro h t; rw [← reindex_inj_lang f A hf t]; exact h t
-  · intro h t; rw [reindex_inj_lang f A hf t]; exact h t
+example : let A : TA := RenameEx.exA; let A' : TA := ⟨A.rules.reverse ++ A.rules, A.final⟩
+    (∀ r, r ∈ A.rules ↔ r ∈ A'.rules) ∧ (∀ q, q ∈ A.final ↔ q ∈ A'.final) :=
+  ⟨fun r => by simp, fun _ => Iff.rfl⟩
 
-/-- insertion order and duplicates do not matter: automata with the same rule and final *sets* have the same language -/
-theorem lang_perm_invariant (A B : TA) (hr : ∀ r, r ∈ A.rules ↔ r ∈ B.rules) (hf : ∀ q, q ∈ A.final ↔ q ∈ B.final)
-    (t : Tree) : accepts A t = accepts B t := by
-  rw [Bool.eq_iff_iff]
-  simp only [accepts, accepting, List.any_eq_true, List.contains_iff_mem]
-  constructor
-  · rintro ⟨q, hq, hfq⟩
-    exact ⟨q, reach_mono A B (fun r h => (hr r).1 h) t q hq, (hf q).1 hfq⟩
-  · rintro ⟨q, hq, hfq⟩
-    exact ⟨q, reach_mono B A (fun r h => (hr r).2 h) t q hq, (hf q).2 hfq⟩
+/-- renumbering the symbols by an injective map: an inclusion that holds between the renumbered automata holds between
+the original ones.  Partial: the converse direction (which needs that the renumbered automaton accepts only relabelled
+trees) is not proved -/
+theorem C19_symbol_renumbering_partial (g : Nat → Nat) (hg : ∀ a b, g a = g b → a = b) (A B : TA)
+    (h : Incl (translateSymbols g A) (translateSymbols g B)) : Incl A B := by
+  intro t ht
+  rw [← translateSymbols_lang g hg B t]
+  exact h _ (by rw [translateSymbols_lang g hg A t]; exact ht)
 
-theorem incl_union_left (A B : TA) (hdis : ∀ q, q ∈ A.states → q ∉ B.states) : Incl A (unionDisjoint A B) := by
-  intro t h; rw [unionDisjoint_lang A B hdis t, h]; rfl
+example : ∀ a b : Nat, (· + 42) a = (· + 42) b → a = b := by intro a b h; simp only at h; omega
 
-theorem incl_union_right (A B : TA) (hdis : ∀ q, q ∈ A.states → q ∉ B.states) : Incl B (unionDisjoint A B) := by
-  intro t h; rw [unionDisjoint_lang A B hdis t, h]; simp
+/-! ### the laws of language inclusion -/
 
-theorem union_least (A B C : TA) (hdis : ∀ q, q ∈ A.states → q ∉ B.states) (ha : Incl A C) (hb : Incl B C) :
-    Incl (unionDisjoint A B) C := by
-  intro t h
-  rw [unionDisjoint_lang A B hdis t, Bool.or_eq_true] at h
-  rcases h with h | h
-  · exact ha t h
-  · exact hb t h
+/-- `A ⊆ A`, and inclusion is transitive -/
+theorem C19_inclusion_preorder (A B C : TA) : Incl A A ∧ (Incl A B → Incl B C → Incl A C) :=
+  ⟨incl_refl A, incl_trans⟩
 
-theorem isect_incl_left (A B : TA) : Incl (isectFull A B) A := by
-  intro t h; rw [isectFull_lang, Bool.and_eq_true] at h; exact h.1
+-- inclusion is a genuine preorder, not an equivalence: `{a} ⊆ {a,b}` holds, the converse does not
+example : Incl InclUpEx.exA InclUpEx.exAB ∧ ¬ Incl InclUpEx.exAB InclUpEx.exA :=
+  ⟨inclUp_true (fuel := 10) (c := .closed [(1, [3])]) rfl, inclUp_false (fuel := 10) (c := .witness (.node 1 [])) rfl⟩
 
-theorem isect_incl_right (A B : TA) : Incl (isectFull A B) B := by
-  intro t h; rw [isectFull_lang, Bool.and_eq_true] at h; exact h.2
+/-- `A ⊆ A ∪ B`, `B ⊆ A ∪ B`, the union is the least upper bound, and `A ∪ B ⊆ B` exactly when `A ⊆ B`; the union of
+the model needs operands with disjoint states (the check renames them apart first) -/
+theorem C19_union_laws (A B C : TA) (hdis : ∀ q, q ∈ A.states → q ∉ B.states) :
+    Incl A (unionDisjoint A B) ∧ Incl B (unionDisjoint A B) ∧
+    (Incl A C → Incl B C → Incl (unionDisjoint A B) C) ∧ (Incl (unionDisjoint A B) B ↔ Incl A B) :=
+  ⟨incl_union_left A B hdis, incl_union_right A B hdis, union_least A B C hdis, union_incl_iff A B hdis⟩
 
-theorem isect_greatest (A B C : TA) (ha : Incl C A) (hb : Incl C B) : Incl C (isectFull A B) := by
-  intro t h; rw [isectFull_lang, ha t h, hb t h]; rfl
+example : ∀ q, q ∈ (reindex (· + 10) RenameEx.exA).states → q ∉ RenameEx.exB.states := by decide
 
-/-- `A ⊆ A ∩ B` exactly when `A ⊆ B` (law instance 7 of the check) -/
-theorem incl_isect_iff (A B : TA) : Incl A (isectFull A B) ↔ Incl A B :=
-  ⟨fun h => incl_trans h (isect_incl_right A B), fun h => isect_greatest A B A (incl_refl A) h⟩
+/-- `A ∩ B ⊆ A`, `A ∩ B ⊆ B`, the intersection is the greatest lower bound, and `A ⊆ A ∩ B` exactly when `A ⊆ B` -/
+theorem C19_intersection_laws (A B C : TA) :
+    Incl (isectFull A B) A ∧ Incl (isectFull A B) B ∧
+    (Incl C A → Incl C B → Incl C (isectFull A B)) ∧ (Incl A (isectFull A B) ↔ Incl A B) :=
+  ⟨isect_incl_left A B, isect_incl_right A B, isect_greatest A B C, incl_isect_iff A B⟩
 
-/-- `A ∪ B ⊆ B` exactly when `A ⊆ B` (law instance 8 of the check) -/
-theorem union_incl_iff (A B : TA) (hdis : ∀ q, q ∈ A.states → q ∉ B.states) :
-    Incl (unionDisjoint A B) B ↔ Incl A B :=
-  ⟨fun h => incl_trans (incl_union_left A B hdis) h, fun h => union_least A B B hdis h (incl_refl B)⟩
+example : accepts (isectFull IsectEx.exA IsectEx.exB) IsectEx.exT = true ∧ accepts IsectEx.exA IsectEx.exT' = true ∧
+    accepts (isectFull IsectEx.exA IsectEx.exB) IsectEx.exT' = false := by decide
 
-theorem equiv_trim (A : TA) : LangEq (removeUseless A) A := fun t => removeUseless_lang A t
-theorem equiv_unreach (A : TA) : LangEq (removeUnreachable A) A := fun t => removeUnreachable_lang A t
-theorem equiv_reindex (f : Nat → Nat) (A : TA) (hf : InjOnStates f A) : LangEq (reindex f A) A :=
-  fun t => reindex_inj_lang f A hf t
+/-- `A` is equivalent to its trimmed forms, to its re-indexed form (injective map) and to its reduced form (collapse
+map `h` to representatives of downward-simulation equivalence, then removal of unreachable states: the model of
+`Reduce`, C05) -/
+theorem C19_equivalent_forms (A : TA) (f h : Nat → Nat) (hf : InjOnStates f A)
+    (hh : ∀ q, q ∈ A.states → (q, h q) ∈ downSimRef A ∧ (h q, q) ∈ downSimRef A) :
+    LangEq (removeUseless A) A ∧ LangEq (removeUnreachable A) A ∧ LangEq (reindex f A) A ∧
+    LangEq (removeUnreachable (reindex h A)) A :=
+  ⟨equiv_trim A, equiv_unreach A, equiv_reindex f A hf, fun t => reduce_trim_lang removeUnreachable_lang A h hh t⟩
 
-/-- trimming commutes with injective renaming up to the renaming, hence the sizes agree -/
-theorem rules_length_equivariant (f : Nat → Nat) (A : TA) : (reindex f A).rules.length = A.rules.length :=
-  reindex_rules_length f A
+example : InjOnStates (· + 10) SimModel.exA ∧
+    ∀ q, q ∈ SimModel.exA.states → (q, SimModel.exH q) ∈ downSimRef SimModel.exA ∧
+      (SimModel.exH q, q) ∈ downSimRef SimModel.exA :=
+  ⟨by intro q q' _ _ h; simp only at h; omega, by decide⟩
 
-example : Incl (⟨[⟨0, [], 1⟩], [1]⟩ : TA) (unionDisjoint ⟨[⟨0, [], 1⟩], [1]⟩ ⟨[⟨1, [], 2⟩], [2]⟩) :=
-  incl_union_left _ _ (by decide)
+/-- equivalent automata are interchangeable in every inclusion question (what licenses checking the laws on the
+reduced / trimmed / re-indexed forms) -/
+theorem C19_equivalent_operands (A A' B B' : TA) (hA : LangEq A A') (hB : LangEq B B') : Incl A B ↔ Incl A' B' :=
+  ⟨fun h => incl_trans (langEq_incl hA).2 (incl_trans h (langEq_incl hB).1),
+   fun h => incl_trans (langEq_incl hA).1 (incl_trans h (langEq_incl hB).2)⟩
 
-end Vata
+example : LangEq (removeUseless TrimEx.exA) TrimEx.exA := equiv_trim _
+
+/-- re-indexing keeps the number of rules (any map) and the number of states (injective map) -/
+theorem C19_renaming_keeps_sizes (f : Nat → Nat) (A : TA) :
+    (reindex f A).rules.length = A.rules.length ∧ (InjOnStates f A → (reindex f A).states.length = A.states.length) :=
+  ⟨rules_length_equivariant f A, reindex_states_length f A⟩
+
+example : (reindex (· + 10) RenameEx.exA).states = [11, 12] ∧ RenameEx.exA.states = [1, 2] := by decide
+
+/-!
+## not yet proved
+
+* **Simulation relations are mapped to their renamed image** (`downSimRef (reindex f A)` is the `f`-image of
+  `downSimRef A`, same for the upward simulation): not proved (see C04).
+* **The number of states produced by reduction and trimming is unchanged under renaming**
+  (`(removeUseless (reindex f A)).states.length = (removeUseless A).states.length`, same for the model of `Reduce`):
+  needs that `prodStates`/`tdReach`/`downSimRef` commute with an injective `reindex`; not proved.  Only
+  `C19_renaming_keeps_sizes` (re-indexing itself keeps the sizes) is.
+* **Symbol renumbering**: only one direction of the invariance of inclusion (`C19_symbol_renumbering_partial`); the
+  emptiness verdict under symbol renumbering is not stated.
+* **Dumped-and-reloaded form**: the round trip is proved on the level of descriptions (C13), not as a `LangEq` between
+  tree automata.
+* **"Every inclusion algorithm returns the same verdict"**: see C01 – proved for the model of the upward selection
+  against the reference only.
+-/
+end Vata.Props
